@@ -142,7 +142,7 @@ func (e *Env) HarnessError(format string, args ...interface{}) {
 func (e *Env) Eps() time.Duration { return e.S.LateTotal() }
 
 // Execute runs one simulated execution. A run that exhausts its step budget is executed again
-// with eight times the budget: if it still does not finish, the system makes no progress (a
+// with four times the budget: if it still does not finish, the system makes no progress (a
 // goroutine spinning through scheduling points, e.g. a select loop on a closed channel whose
 // timer is re-armed in every iteration) and that is reported; otherwise the longer run counts.
 func Execute(t *testing.T, spec RunSpec) *RunResult {
@@ -156,7 +156,7 @@ func Execute(t *testing.T, spec RunSpec) *RunResult {
 		return res
 	}
 	if spec.StepFactor <= 1 {
-		spec.StepFactor = 8
+		spec.StepFactor = 4
 		res = executeOnce(t, spec)
 		if res.Probes != nil {
 			res.Probes["step-budget-extended"]++
@@ -164,7 +164,7 @@ func Execute(t *testing.T, spec RunSpec) *RunResult {
 	}
 	if res.Outcome == "step-budget" && res.HarnessErr == "" {
 		res.Violations = append(res.Violations, Violation{Prop: "PANIC", Class: "no-progress",
-			Detail: fmt.Sprintf("the run did not finish within %d scheduler steps (eight times the scenario's budget) at simulated time %v: the system spins without making progress; tasks: %s", res.Steps, time.Duration(res.SimTimeNs), res.Blocked)})
+			Detail: fmt.Sprintf("the run did not finish within %d scheduler steps (four times the scenario's budget) at simulated time %v: the system spins without making progress; tasks: %s", res.Steps, time.Duration(res.SimTimeNs), res.Blocked)})
 	}
 	return res
 }
